@@ -341,3 +341,86 @@ def _(sp, r):
 @rule("nd0", "DotProduct")
 def _(sp, r):
     sp.ip.path.assume(NODIV0(r) == z3.And(vec_nd0(sp, FV(sp, r, "left")), vec_nd0(sp, FV(sp, r, "right"))))
+
+
+def VECDOM(sp, v, E, PV):
+    """forall-prefix: every element of the vector is in its domain at (E, PV)."""
+    n = VLEN(v)
+    return named_forall(sp.ip, "VDOMALL", [v, E, PV], n,
+                        lambda k: z3.Or(sp.K.is_kind(v, "VectorVariable"), sp.S.DOM(ELEME(v, k), E, PV)))
+
+
+def _dom_vec(sp, r, E, PV, vs, extra=None):
+    for v in vs:
+        register_vector(sp, v, None, E, PV)
+    conj = [VECDOM(sp, v, E, PV)(VLEN(v)) for v in vs]
+    if extra is not None:
+        conj.append(extra)
+    sp.ip.path.assume(sp.S.DOM(r, E, PV) == z3.And(*conj))
+
+
+for _k in ("VectorSum", "LinearCombination", "L2Norm", "L1Norm"):
+    @rule("dom", _k)
+    def _(sp, r, E, PV):
+        _dom_vec(sp, r, E, PV, [FV(sp, r)])
+
+
+@rule("dom", "VectorExpressionSum")
+def _(sp, r, E, PV):
+    _dom_vec(sp, r, E, PV, [FV(sp, r, "expression")])
+
+
+@rule("dom", "DotProduct")
+def _(sp, r, E, PV):
+    _dom_vec(sp, r, E, PV, [FV(sp, r, "left"), FV(sp, r, "right")])
+
+
+@rule("dom", "VectorPowerSum")
+def _(sp, r, E, PV):
+    from .specfns import POWDOM
+    v = FV(sp, r)
+    ok = named_forall(sp.ip, "PWDOMALL", [r, E, PV], VLEN(v), lambda k: POWDOM(DENV(v, k, E, PV), FPOWER(r)))
+    _dom_vec(sp, r, E, PV, [v], extra=ok(VLEN(v)))
+
+
+@rule("dom", "VectorUnarySum")
+def _(sp, r, E, PV):
+    v = FV(sp, r)
+    register_vector(sp, v, None, E, PV)
+    n = VLEN(v)
+    for op in ops_of(sp, r, VEC_UNARY_OPS):
+        ok = named_forall(sp.ip, "UDOM_" + op, [r, E, PV], n, lambda k, op=op: unary_domain(sp, op, DENV(v, k, E, PV)))
+        sp.ip.path.assume(z3.Implies(guard_op(sp, r, op), sp.S.DOM(r, E, PV) == ok(n)))
+
+
+# ------------------------------------------------------------------------------------------- QuadraticForm  x' Q x
+MATQ = fn("MAT_matrix", Ref, sym.RealMat)
+
+
+@rule("den", "QuadraticForm")
+def _(sp, r, E, PV):
+    ip = sp.ip
+    v = FV(sp, r)
+    register_vector(sp, v, None, E, PV)
+    n = VLEN(v)
+    Q = MATQ(r)
+
+    def col(j):
+        return named_array(ip, "A_qfcol", [r, E, PV, j], n, lambda i, j=j: DENV(v, i, E, PV) * z3.Select(Q, i, j))
+    outer = named_array(ip, "A_qf", [r, E, PV], n, lambda j: psum(ip, col(j), n) * DENV(v, j, E, PV))
+    ip.path.assume(sp.S.DEN(r, E, PV) == psum(ip, outer, n))
+
+
+@rule("wf", "QuadraticForm")
+def _(sp, r):
+    sp.ip.path.assume(WF(r) == vec_wf(sp, FV(sp, r)))
+
+
+@rule("dom", "QuadraticForm")
+def _(sp, r, E, PV):
+    _dom_vec(sp, r, E, PV, [FV(sp, r)])
+
+
+@rule("occ", "QuadraticForm")
+def _(sp, r, w):
+    _occ_vec(sp, r, w, [FV(sp, r)])
